@@ -45,10 +45,15 @@ def mutants_for(src, lo, hi, text_lines):
         s = line.strip()
         if not s or s.startswith("//") or s.startswith("#[") or re.match(r"^(trace|debug|info|warn|error|eprintln|println)!\(", s) or "trace!(" in s or "debug!(" in s: continue
         code = line.split("//")[0]
-        for pat, rep in OPS:
+        for pat, rep in ([] if os.environ.get("NEG_ONLY") else OPS):
             for m in re.finditer(pat, code):
                 new = code[:m.start()] + re.sub(pat, rep, code[m.start():m.end()]) + code[m.end():] + line[len(code):]
                 if new != line: out.append((ln, "%s -> %s" % (m.group(0), rep or "(removed)"), new))
+        # negated condition of a single-line `if COND {` (not `if let`)
+        mneg = re.match(r"^(\s*(?:\} else )?if )(?!let )(.+) \{\s*$", code)
+        if mneg and "NEG_ONLY" in os.environ or (mneg and os.environ.get("WITH_NEG")):
+            out.append((ln, "negate condition", mneg.group(1) + "!(" + mneg.group(2) + ") {"))
+        if os.environ.get("NEG_ONLY"): continue
         # statement deletion: a single-line statement
         if s.endswith(";") and not s.startswith(("let ", "use ", "return", "pub ", "}", "const ")) and s.count("(") == s.count(")") and not s.startswith("."):
             out.append((ln, "delete statement", re.match(r"\s*", line).group(0) + "();" if False else ""))
